@@ -159,7 +159,34 @@ type Run struct {
 	// (reader.go, processText: visible := mode != TextRenderingModeInvisible);
 	// the model mirrors exactly that.
 	Mode int `json:"mode,omitempty"`
+	// Zero lists glyphs with zero advance which are inserted into the
+	// laid-out sequence by glyph ID (independent of the font's cmap).
+	Zero []ZeroGlyph `json:"zero,omitempty"`
 }
+
+// ZeroGlyph inserts, before glyph Pos (modulo length+1) of the laid-out
+// sequence, the Pick-th (modulo their number) glyph of the font which has
+// advance width zero, with the given text.  Fonts without such a glyph
+// ignore it.
+type ZeroGlyph struct {
+	Pos  int    `json:"pos"`
+	Pick int    `json:"pick"`
+	Text string `json:"text"`
+}
+
+// zeroAdvanceGlyphs lists the glyphs other than glyph 0 whose advance is zero.
+func zeroAdvanceGlyphs(widths []float64) []int {
+	var res []int
+	for gid, w := range widths {
+		if gid != 0 && w == 0 {
+			res = append(res, gid)
+		}
+	}
+	return res
+}
+
+// setGID stores a glyph ID without naming its type.
+func setGID[T ~uint16](p *T, gid int) { *p = T(gid) }
 
 // readerReports tells whether reader.Reader makes Character calls for text
 // shown in the given rendering mode.
@@ -194,32 +221,38 @@ type Case struct {
 
 // observed carries what Check saw to Classify.
 type observed struct {
-	rejected    string // "", "version", "overflow"
-	nonASCII    bool
-	ligature    bool
-	override    bool
-	riseChange  bool
-	modeNot0    bool // a run read back was shown in a text rendering mode other than 0
-	mode7       bool // ... in mode 7 (clip only)
-	invisible   bool // ... in mode 3, which reader.Reader does not report
-	notdef      bool
-	manyCodes   bool
-	exact256    bool
-	overflow    bool
-	conflict    bool // an Identity font refused a second text for a glyph
-	excluded    bool
-	fallback    bool // text came through the glyph name mapping
-	toUnicode   bool // text came through Code.Text
-	wordSpace   bool
-	twoByte     bool
-	interleaved bool
-	onlyNotdef  bool // a font showed nothing but glyph 0 and was not read back
-	canonEquiv  bool // a simple font showed a glyph with a text that is canonically equivalent to, but not, the text its name implies
-	emptyText   bool // a glyph other than glyph 0 was shown with empty text and read back
-	onlyEmpty   bool // such a glyph was never shown with any other text in its font
-	glyphs      int
-	maxCodes    int
-	ops         map[string]bool
+	rejected         string // "", "version", "overflow"
+	nonASCII         bool
+	ligature         bool
+	override         bool
+	riseChange       bool
+	nimbus           bool // a Nimbus font of font/extended was read back
+	chained          bool // a glyph laid out from "ffi" or "ffl" (ligature built in two steps) was read back
+	zeroAdv          bool // a glyph with zero advance was read back
+	zeroAdvComposite bool // ... in a composite font
+	zeroByGID        bool // ... inserted by glyph ID
+	wholeRun         bool // the text read back for a whole run was compared with the input string
+	modeNot0         bool // a run read back was shown in a text rendering mode other than 0
+	mode7            bool // ... in mode 7 (clip only)
+	invisible        bool // ... in mode 3, which reader.Reader does not report
+	notdef           bool
+	manyCodes        bool
+	exact256         bool
+	overflow         bool
+	conflict         bool // an Identity font refused a second text for a glyph
+	excluded         bool
+	fallback         bool // text came through the glyph name mapping
+	toUnicode        bool // text came through Code.Text
+	wordSpace        bool
+	twoByte          bool
+	interleaved      bool
+	onlyNotdef       bool // a font showed nothing but glyph 0 and was not read back
+	canonEquiv       bool // a simple font showed a glyph with a text that is canonically equivalent to, but not, the text its name implies
+	emptyText        bool // a glyph other than glyph 0 was shown with empty text and read back
+	onlyEmpty        bool // such a glyph was never shown with any other text in its font
+	glyphs           int
+	maxCodes         int
+	ops              map[string]bool
 }
 
 type pairKey struct {
@@ -237,6 +270,7 @@ type fontModel struct {
 	byCode map[charcode.Code]pairKey
 	// first text seen for a glyph at layout time (Identity fonts, finding open)
 	firstText map[int]string
+	kept      map[rune]bool
 	overflow  bool
 	conflict  bool
 	used      bool
@@ -255,7 +289,25 @@ func newModel(k *fontKind, F font.Layouter) *fontModel {
 		codes:     map[pairKey]charcode.Code{},
 		byCode:    map[charcode.Code]pairKey{},
 		firstText: map[int]string{},
+		kept:      map[rune]bool{},
 	}
+}
+
+// keeps returns s without the characters for which the layouter produces no
+// glyph at all when they are laid out on their own.
+func (m *fontModel) keeps(s string) string {
+	var b strings.Builder
+	for _, r := range s {
+		keep, ok := m.kept[r]
+		if !ok {
+			keep = len(m.F.Layout(nil, 1, string(r)).Seq) > 0
+			m.kept[r] = keep
+		}
+		if keep {
+			b.WriteRune(r)
+		}
+	}
+	return b.String()
 }
 
 // encode calls Layouter.Encode and checks the result against what was seen
@@ -325,14 +377,18 @@ func (m *fontModel) checkRemaining() error {
 }
 
 type shownGlyph struct {
-	g    font.Glyph
-	code []byte
-	orig string // the text Layout gave the glyph, before any override
+	g     font.Glyph
+	code  []byte
+	orig  string // the text Layout gave the glyph, before any override
+	byGID bool   // inserted by glyph ID, not laid out
 }
 
 type runState struct {
 	seq    *font.GlyphSeq
 	orig   []string // laid-out text of every glyph of seq
+	byGID  []bool   // glyph of seq was inserted by glyph ID
+	plain  bool     // every glyph carries the text Layout gave it
+	expect string   // the input string without the characters the layouter drops
 	nLig   int
 	shown  bool
 	glyphs []shownGlyph // glyphs for which Encode succeeded, in order
@@ -414,6 +470,7 @@ func checkCase(c *Case) error {
 
 	rs := make([]runState, len(c.Runs))
 	var order []int // runs in the order in which they were shown
+	var layoutErr error
 
 	layout := func(i int) {
 		if rs[i].seq != nil {
@@ -422,10 +479,23 @@ func checkCase(c *Case) error {
 		run := &c.Runs[i]
 		m := models[run.Font]
 		seq := m.F.Layout(nil, float64(run.Size), run.Text)
+		var laidOut strings.Builder
 		for _, g := range seq.Seq {
 			if utf8.RuneCountInString(g.Text) > 1 && g.GID != 0 {
 				rs[i].nLig++
 			}
+			laidOut.WriteString(g.Text)
+		}
+		// Layout preserves the text: the glyphs' texts, in order, make up
+		// the input string.  A character the font has no glyph for comes out
+		// as glyph 0 carrying that character as its text; only the Type 3
+		// layouter drops it instead (type3/font.go, Layout: "if !ok
+		// continue").  The model takes the characters which, laid out on
+		// their own, give no glyph at all as dropped.
+		rs[i].expect = m.keeps(run.Text)
+		if laidOut.String() != rs[i].expect && layoutErr == nil {
+			layoutErr = fmt.Errorf("run %d (%s): Layout(%q) gives glyphs whose texts make up %q, want %q",
+				i, m.kind.Label, run.Text, laidOut.String(), rs[i].expect)
 		}
 		rs[i].orig = make([]string, len(seq.Seq))
 		var eligible []int // glyphs with another spelling of their text
@@ -457,6 +527,23 @@ func checkCase(c *Case) error {
 				}
 			}
 		}
+		rs[i].byGID = make([]bool, len(seq.Seq))
+		if zz := zeroAdvanceGlyphs(m.widths); len(zz) > 0 {
+			for _, z := range run.Zero {
+				pos := z.Pos % (len(seq.Seq) + 1)
+				g := font.Glyph{Text: z.Text}
+				setGID(&g.GID, zz[z.Pick%len(zz)])
+				seq.Seq = append(seq.Seq, font.Glyph{})
+				copy(seq.Seq[pos+1:], seq.Seq[pos:])
+				seq.Seq[pos] = g
+				rs[i].orig = append(rs[i].orig, "")
+				copy(rs[i].orig[pos+1:], rs[i].orig[pos:])
+				rs[i].orig[pos] = z.Text
+				rs[i].byGID = append(rs[i].byGID, false)
+				copy(rs[i].byGID[pos+1:], rs[i].byGID[pos:])
+				rs[i].byGID[pos] = true
+			}
+		}
 		if n := len(seq.Seq); n > 0 && run.How == howGlyphs {
 			for _, pos := range run.Rise {
 				for j := pos % n; j < n; j++ {
@@ -478,11 +565,20 @@ func checkCase(c *Case) error {
 				}
 			}
 		}
+		rs[i].plain = true
+		for j, g := range seq.Seq {
+			if rs[i].byGID[j] || g.Text != rs[i].orig[j] {
+				rs[i].plain = false
+			}
+		}
 		rs[i].seq = seq
 	}
 
 	encodeAll := func(i int, rev bool) error {
 		layout(i)
+		if layoutErr != nil {
+			return layoutErr
+		}
 		m := models[c.Runs[i].Font]
 		gg := rs[i].seq.Seq
 		for j := range gg {
@@ -502,6 +598,9 @@ func checkCase(c *Case) error {
 			return nil
 		}
 		layout(i)
+		if layoutErr != nil {
+			return layoutErr
+		}
 		rs[i].shown = true
 		run := &c.Runs[i]
 		m := models[run.Font]
@@ -539,7 +638,7 @@ func checkCase(c *Case) error {
 			if g.GID != 0 {
 				m.real++
 			}
-			rs[i].glyphs = append(rs[i].glyphs, shownGlyph{g: g, code: b, orig: rs[i].orig[j]})
+			rs[i].glyphs = append(rs[i].glyphs, shownGlyph{g: g, code: b, orig: rs[i].orig[j], byGID: rs[i].byGID[j]})
 			rs[i].want = append(rs[i].want, b...)
 		}
 		if err := m.checkRemaining(); err != nil {
@@ -577,6 +676,7 @@ func checkCase(c *Case) error {
 		switch st.Op {
 		case opLayout:
 			layout(st.Run)
+			err = layoutErr
 		case opEncode:
 			if !rs[st.Run].shown {
 				o.interleaved = true
@@ -856,9 +956,23 @@ func readBack(c *Case, mf *memfile.MemFile, models []*fontModel, names []pdf.Nam
 			return fmt.Errorf("%s: %d glyphs shown, the Layouter decodes <%x> into %d codes",
 				where, len(glyphs), got, len(wc))
 		}
+		if strings.HasPrefix(m.kind.Label, "ext:Nimbus") {
+			o.nimbus = true
+		}
+		var readText strings.Builder
+		complete := len(glyphs) == len(rs[i].seq.Seq) // every glyph could be encoded
 		for j, sg := range glyphs {
 			gid := int(sg.g.GID)
 			adv := m.widths[gid]
+			if adv == 0 && gid != 0 {
+				o.zeroAdv = true
+				if m.kind.Composite() {
+					o.zeroAdvComposite = true
+				}
+				if sg.byGID {
+					o.zeroByGID = true
+				}
+			}
 			what := fmt.Sprintf("%s glyph %d (gid %d, %q, code <%x>)", where, j, gid, sg.g.Text, sg.code)
 			if math.Abs(rc[j].Width-adv) > widthTol {
 				return fmt.Errorf("%s: advance %g, extracted font gives width %g", what, adv, rc[j].Width)
@@ -878,6 +992,7 @@ func readBack(c *Case, mf *memfile.MemFile, models []*fontModel, names []pdf.Nam
 				o.wordSpace = true
 			}
 			if gid == 0 {
+				complete = false
 				continue // outside the repertoire: no text is promised
 			}
 			if wc[j].CID != rc[j].CID {
@@ -890,6 +1005,7 @@ func readBack(c *Case, mf *memfile.MemFile, models []*fontModel, names []pdf.Nam
 				// shown without text: the reader may still derive a text from
 				// the glyph name, so nothing is promised about its side
 				o.emptyText = true
+				complete = false
 				continue
 			}
 			glyphName := func() string {
@@ -922,6 +1038,18 @@ func readBack(c *Case, mf *memfile.MemFile, models []*fontModel, names []pdf.Nam
 			if text != sg.g.Text {
 				return fmt.Errorf("%s: reads back as %q (Code.Text %q, CID %d)", what, text, rc[j].Text, rc[j].CID)
 			}
+			readText.WriteString(text)
+			if !sg.byGID && (sg.orig == "ffi" || sg.orig == "ffl") {
+				o.chained = true
+			}
+		}
+		if rs[i].plain && complete {
+			// nothing but laid-out glyphs with their own text: the run reads
+			// back as the string that was laid out
+			if readText.String() != rs[i].expect {
+				return fmt.Errorf("%s: the run reads back as %q", where, readText.String())
+			}
+			o.wholeRun = true
 		}
 		if readerReports(run.Mode) {
 			allRead = append(allRead, rc...)
